@@ -13,12 +13,16 @@ import numpy as np
 from vf import gen, harness, refdec, sched, synth, tracefs
 from vf.props import c02
 
+sched.patch_threading_locks()  # before the package under test is imported: locks it creates become scheduler-aware
+
 ID = "C19"
 LEVEL = "exploration"
 RULE = ("scenarios {same variable, two images of one tree, tree + pickled copy} x {2 threads x 1 chunk: all interleavings of "
         "start/lock/open/seek/read/close and 2 threads x 2 chunks, enumerated completely by DFS, sharded by schedule prefix; "
         "3 threads x 1 chunk on three different images / one variable / tree+copy with the coarse yield points start/open/seek/read "
-        "(34650 orders when uncontended)} plus seeded random schedules of larger loads (2-4 threads on up to 4 images, 1-3 chunks "
+        "(34650 orders when uncontended)} plus line-level schedules (yield points at every statement start of array.py / xarray.py on "
+        "the read path in addition to I/O and lock points; every schedule with at most 2 (quick) / 3 (thorough) preemptions for 2 threads, "
+        "1 / 2 for 3 threads, enumerated completely) plus seeded random schedules of larger loads (2-4 threads on up to 4 images, 1-3 chunks "
         "each, mixed selections) and free-running threads (3-5 threads x 25-60 loads) with sleep(0) injected by a sys.monitoring LINE "
         "callback at statement starts of array.py / xarray.py (non-deterministic, seeds logged); thorough adds 3 threads x 2 chunks coarse. evaluations = schedules executed; distinct = distinct executed interleavings "
         "(trace strings) per scenario; non-trivial = schedule in which at least two threads' file operations interleave or contend")
@@ -26,7 +30,7 @@ ASSUMPTIONS = ["files opened through the tracing filesystem have independent pos
                "handle would be corrupted by a seek/seek/read order",
                "yield points exist only where the real code performs I/O or takes its lock",
                "dask-backed loading is not installed and not exercised"]
-REQUIRED_OBS = ["schedules", "distinct_interleavings", "threads_compared"]
+REQUIRED_OBS = ["schedules", "distinct_interleavings", "threads_compared", "line_level_schedules"]
 CASE_TIMEOUT = 1500
 PREFIX_DEPTH = 3
 
@@ -48,6 +52,20 @@ def _plan(tier):
     if tier == "thorough":
         for p in _prefixes(3, PREFIX_DEPTH + 2):
             cases.append(("dfs-coarse", "different-images", 3, 2, p))
+    # line-level yield points (every statement start of array.py / xarray.py on the read path, plus the I/O and lock points),
+    # all schedules with at most `bound` preemptions, top-level branches dealt to shards
+    for sc in SCENARIOS:
+        b, nsh = (2, 8) if tier == "quick" else (3, 96)
+        for k in range(nsh):
+            cases.append(("pb", sc, 2, 1, (b, k, nsh)))
+    for sc in SCENARIOS:
+        b, nsh = (1, 1) if tier == "quick" else (2, 64)
+        for k in range(nsh):
+            cases.append(("pb", sc, 3, 1, (b, k, nsh)))
+    if tier == "thorough":
+        for sc in SCENARIOS:
+            for k in range(32):
+                cases.append(("pb", sc, 2, 2, (2, k, 32)))
     nrand = 48 if tier == "quick" else 600
     for k in range(nrand):
         cases.append(("random", SCENARIOS[k % 3], 2 + k % 3, 1 + k % 3, k))
@@ -73,6 +91,8 @@ def case_weight(i, tier, seed):
         return 3
     if kind == "free":
         return 40
+    if kind == "pb":
+        return 30 if tier == "quick" else 200
     return {"different-images": 120, "same-variable": 2, "pickled-copy": 2}[sc] * (10 if nchunks == 2 else 1) * (4 if nt == 3 else 1)
 
 
@@ -144,6 +164,9 @@ def run_case(i, tier, seed):
     lines = 3 * max(4, nchunks * nthreads)
     tree, copy, exp = _setup(seed, lines, rpc)
     sched.COARSE[0] = kind == "dfs-coarse"
+    sched.FINE[0] = False
+    if kind == "pb":
+        return _pb_case(i, tier, seed, scenario, nthreads, nchunks, p, tree, copy, exp, rpc, obs)
     if kind == "free":
         return _free_case(i, tier, seed, scenario, nthreads, p, tree, copy, exp, lines, obs)
     if kind in ("dfs", "dfs-coarse"):
@@ -205,6 +228,41 @@ def run_case(i, tier, seed):
     obs["interleaved"] = obs.get("interleaved", 0) + sum(1 for t in traces if sched.is_interleaved(t))
     return {"sig": f"random|{scenario}|{nthreads}x{nchunks}", "evals": obs["schedules"], "violations": violations[:4], "obs": obs,
             "sample": {"scenario": scenario, "threads": nthreads, "kind": "random schedules", "distinct": len(traces)}}
+
+
+def _pb_case(i, tier, seed, scenario, nthreads, nchunks, p, tree, copy, exp, rpc, obs):
+    bound, k, nsh = p
+    if not sched.install_line_yields():
+        return {"sig": "pb-unavailable", "evals": 0, "violations": [], "obs": obs,
+                "inconclusive": "sys.monitoring LINE events are not available for the line-level scheduler"}
+    sels = [slice(t * nchunks * rpc, (t + 1) * nchunks * rpc) for t in range(nthreads)]
+    jobs, want = _jobs(scenario, tree, copy, exp, sels)
+    tracefs.HOOK = sched.fs_hook
+    sched.FINE[0] = True
+    try:
+        r = sched.explore_pb(jobs, _checker(want), bound=bound, shard=(k, nsh), limit=60000 if tier == "quick" else 400000)
+    finally:
+        sched.FINE[0] = False
+    obs["schedules"] += r["runs"]
+    obs["distinct_interleavings"] += r["distinct"]
+    obs["interleaved"] = obs.get("interleaved", 0) + r["interleaved"]
+    obs["threads_compared"] += r["runs"] * nthreads
+    obs["deadlocks"] += r["deadlocks"]
+    obs["hung"] += r["hung"]
+    obs["stalls"] = obs.get("stalls", 0) + r.get("stalls", 0)
+    obs["line_level_schedules"] = r["runs"]
+    obs["line_level_steps"] = r["steps"]
+    violations = [{"what": f"[{scenario}, {nthreads} threads x {nchunks} chunk(s), line-level yield points, <= {bound} preemptions] {v['what']}",
+                   "detail": {"schedule": v.get("schedule"), "trace_tail": v.get("trace")}} for v in r["violations"]]
+    inconclusive = None
+    if r["hung"] and not r["deadlocks"]:
+        inconclusive = "threads did not finish within the join timeout without a scheduler-visible deadlock"
+    elif not r["complete"]:
+        inconclusive = f"preemption-bounded enumeration stopped at the run limit ({r['runs']} runs)"
+    return {"sig": f"pb{bound}|{scenario}|{nthreads}x{nchunks}", "evals": r["runs"], "violations": violations, "obs": obs,
+            "inconclusive": inconclusive,
+            "sample": {"scenario": scenario, "threads": nthreads, "chunks_per_thread": nchunks, "yield_points": "lines+io+lock",
+                       "preemption_bound": bound, "shard": [k, nsh], "schedules": r["runs"], "steps_per_schedule": r["max_depth"]}}
 
 
 _LINE_EVENTS = [0, 0]
@@ -316,7 +374,7 @@ def _free_case(i, tier, seed, scenario, nthreads, k, tree, copy, exp, lines, obs
 def finish(results, tier, seed):
     per = {}
     for r in results:
-        if isinstance(r.get("sig"), str) and r["sig"].startswith("dfs"):
+        if isinstance(r.get("sig"), str) and r["sig"].startswith(("dfs", "pb")):
             per[r["sig"]] = per.get(r["sig"], 0) + r.get("evals", 0)
     total = sum(r.get("obs", {}).get("interleaved", 0) for r in results)
     return {"exhaustive": False, "interleavings_enumerated_completely": per, "distinct_nontrivial": total,
